@@ -417,6 +417,9 @@ def evaluate(case, info=None):
     out_tree = parses(out)
     if out_tree is None:
         return []  # validity is C03's
+    if case.get("must_apply") and out == source:
+        fail("match-not-replaced", "a directed case whose splice is valid by construction came back unchanged")
+        return fails
     lines = source.split("\n")
     ignored = {i + 1 for i, l in enumerate(lines) if re.search(r"#\s*pyrefact\s*:\s*(skip_file|ignore)", l)}
     if case.get("self"):
@@ -518,6 +521,16 @@ DIRECTED_PATTERNS = {
 }
 
 
+# re-indenting replacements: the result differs from the source only in indentation (the last statement leaves its block)
+REINDENT = [
+    ("if a:\n    f()\n    g()\nh()\n", "if {{c}}:\n    {{x}}\n    {{y}}", "if {{c}}:\n    {{x}}\n{{y}}"),
+    ("def k(r):\n    for i in r:\n        f(i)\n        g(i)\n    return 1\n", "for {{i}} in {{r}}:\n    {{x}}\n    {{y}}", "for {{i}} in {{r}}:\n    {{x}}\n{{y}}"),
+    ("while t():\n    a = 1\n    b = 2\n", "while {{c}}:\n    {{x}}\n    {{y}}", "while {{c}}:\n    {{x}}\n{{y}}"),
+    ("with o as q:\n    q.r()\n    s = 1\nprint(s)\n", "with {{o}} as {{q}}:\n    {{x}}\n    {{y}}", "with {{o}} as {{q}}:\n    {{x}}\n{{y}}"),
+    ("if a:\n    f()\ng()\n", "if {{c}}:\n    {{x}}\n{{y}}", "if {{c}}:\n    {{x}}\n    {{y}}"),
+]
+
+
 def plan(tier, seed):
     nsh = 16
     q = tier == "quick"
@@ -529,6 +542,15 @@ def run_shard(spec):
     pool = [s for s in corpus.ascii_examples() if len(s) < 1500 and "{{" not in s]  # '{{x}}' inside the SOURCE is outside the domain
 
     def go(data):
+        if data.draw(st.integers(0, 39)) == 0:
+            source, pattern, repl = data.draw(st.sampled_from(REINDENT))
+            case = {"source": source, "pattern": pattern, "repl": repl, "count": data.draw(st.sampled_from([0, 1])), "self": False, "cli": False, "must_apply": True}
+            info = {}
+            fails = evaluate(case, info)
+            acc.case(case, bool(info.get("applied")) and bool(info.get("changed")), ["directed-reindent"] + (["applied"] if info.get("applied") else ["nothing-applied"]),
+                     sample={"pattern": pattern, "repl": repl, "source": source})
+            acc.fails(fails)
+            return
         source = data.draw(st.sampled_from(OPTIONAL_FIELD_SOURCES)) if data.draw(st.integers(0, 14)) == 0 else data.draw(st.sampled_from(pool))
         tree = parses(source)
         if tree is None:
